@@ -28,6 +28,15 @@ refills it in place and passes the very same object at every call;
 of a class called two or three times on objects the caller already holds
 (fresh containers, results of earlier calls, an earlier input again).
 
+Round 5 (system ``Shared``): TWO detectors alive in one process (same class and
+different classes; batch, streaming, ensembles, MD3) are fed alternately from ONE
+caller container that is refilled in place between calls - every interleaving of two
+short operation lists, a few schedules of long ones; each detector is judged by a
+solo twin that ran alone, in a reset process state, on private containers (state kept
+outside the object - a class-level memo keyed by the identity of the argument - is
+evicted by a twin that runs in lock-step, which is why the lock-step families above
+cannot see it).
+
 Because the property is about *aliasing*, explorer snapshots must not break
 aliases: ``copy.deepcopy`` of (detector, caller array) would silently turn a
 retained view into a private copy.  The node state therefore implements
@@ -1458,6 +1467,348 @@ def _ow_positions(L):
     return ["all"] + list(range(L))
 
 
+# =============================================================================
+# round 5: TWO detectors alive together, fed from ONE caller container
+# =============================================================================
+SHARED = "Shared"
+PAIR_EXCLUDE = {SHARED}  # the system already is a two-object system; one execution = one complete interleaving
+_SOLO_CACHE = {}
+
+
+def _interleavings(na, nb):
+    """every order in which a's na calls and b's nb calls can be made (lists of 0 / 1)"""
+    out = []
+    for pos in itertools.combinations(range(na + nb), nb):
+        s = [0] * (na + nb)
+        for q in pos:
+            s[q] = 1
+        out.append(s)
+    return out
+
+
+def _weave(na, nb, first, block, lead=0):
+    s, left, who = [0] * lead, [na - lead, nb], first
+    while left[0] or left[1]:
+        take = min(block, left[who])
+        s += [who] * take
+        left[who] -= take
+        who = 1 - who
+    return s
+
+
+def _few_schedules(na, nb):
+    """long histories: strict alternation starting with either detector, alternation in blocks of two, detector a
+    running one call ahead of b, and one complete history after the other"""
+    out = []
+    for s in (_weave(na, nb, 0, 1), _weave(na, nb, 1, 1), _weave(na, nb, 0, 2), _weave(na, nb, 1, 2), _weave(na, nb, 1, 1, lead=1), [0] * na + [1] * nb, [1] * nb + [0] * na):
+        if s.count(0) != na or s.count(1) != nb:
+            raise HarnessError("HARNESS-CRASH: bad schedule")
+        if s not in out:
+            out.append(s)
+    return out
+
+
+class SharedSystem(System):
+    """Two detectors (same class or different classes) live in one process and are fed by ONE caller who owns ONE
+    container per (argument, shape, dtypes): before every call it writes the data of that call into the container in
+    place and hands the very same object to whichever detector is next.  One execution = one complete interleaving of
+    the two detectors' operation lists (the event is the order).
+
+    Oracle: each detector is judged by its SOLO twin - a detector of the same class and parameters that ran the same
+    operation list alone, in a pristine process state (``mc.procstate.reset()``), on private containers nobody touches,
+    with the same random draws: after every call the called detector's public observables equal the twin's, bit for
+    bit (both raise the same exception type or neither raises); the call leaves its argument bit-for-bit unchanged; and
+    the detector that was NOT called reports exactly what it reported before (neither the other detector's call nor
+    the caller's refill / overwrite of the shared container may reach it)."""
+
+    name = SHARED
+
+    def init(self, cfg):
+        return {}
+
+    def alphabet(self, cfg, state, pos):
+        if pos:
+            return []
+        na, nb = len(cfg["ops"][0]), len(cfg["ops"][1])
+        return [{"order": s} for s in (_interleavings(na, nb) if cfg["sched"] == "all" else _few_schedules(na, nb))]
+
+    # the solo twin of detector i: complete history, alone, pristine process state, private containers
+    def _solo(self, cfg, seed, i):
+        ck = (seed, json.dumps(cfg, sort_keys=True, default=repr), i)
+        if ck in _SOLO_CACHE:
+            return _SOLO_CACHE[ck]
+        from mc import procstate
+
+        fam, p, layout = FAMILIES[cfg["fams"][i]], cfg["params"][i], cfg["layout"]
+        procstate.reset()
+        rng.seed_step(0, SHARED, fam.name, cfg["id"], "init", i)
+        det = fam.new(p)
+        trace = []
+        for k, ev in enumerate(cfg["ops"][i]):
+            call = fam.plan(ev, p, det)
+            method, kind, specs, extra = call
+            priv = {a: Held(layout, data, names, dts) for a, data, names, dts in specs}
+            rng.seed_step(seed, SHARED, cfg["id"], i, k)
+            exc = None
+            try:
+                getattr(det, method)(**{a: h.obj for a, h in priv.items()}, **extra)
+            except Exception as e:  # noqa: BLE001 - the shared run must raise the same
+                exc = e
+            trace.append((call, exc, None if exc is not None else public(det)))
+            if exc is not None:
+                break
+        if len(_SOLO_CACHE) > 64:
+            _SOLO_CACHE.clear()
+        _SOLO_CACHE[ck] = trace
+        return trace
+
+    def step(self, cfg, state, ev, pos, ctx):
+        from mc import procstate
+
+        layout = cfg["layout"]
+        fams = [FAMILIES[n] for n in cfg["fams"]]
+        traces = [self._solo(cfg, ctx.seed, 0), self._solo(cfg, ctx.seed, 1)]
+        procstate.reset()
+        dets = []
+        for i in (0, 1):
+            rng.seed_step(0, SHARED, fams[i].name, cfg["id"], "init", i)
+            dets.append(fams[i].new(cfg["params"][i]))
+        buffers, last_user = {}, {}
+        last = [None, None]
+        done, dead = [0, 0], [False, False]
+        states = [[], []]
+        who = "ab"
+        for i in ev["order"]:
+            if dead[i] or done[i] >= len(traces[i]):
+                continue
+            k = done[i]
+            fam = fams[i]
+            call, texc, tobs = traces[i][k]
+            method, kind, specs, extra = call
+            held = {}
+            for a, data, names, dts in specs:
+                data = np.asarray(data)
+                bkey = (a, tuple(data.shape), str(data.dtype), tuple(names), None if dts is None else tuple(str(t) for t in dts))
+                h = buffers.get(bkey)
+                if h is None:
+                    h = buffers[bkey] = Held(layout, data, names, dts)
+                else:
+                    h.refill(data)
+                    if last_user[bkey] != i:
+                        ctx.mark("shared_container_refilled_and_handed_to_the_other_detector")
+                        if done[0] == done[1]:
+                            ctx.count("shared_container_handed_over_at_equal_call_counts")
+                        if kind != "observation":
+                            ctx.count("shared_batch_container_handed_to_the_other_detector")
+                        else:
+                            ctx.count("shared_observation_container_handed_to_the_other_detector")
+                    else:
+                        ctx.count("shared_container_passed_to_the_same_detector_again")
+                last_user[bkey] = i
+                held[a] = h
+            where = "two live detectors (a: %s, b: %s) fed from one caller container per argument [%s], order %s: call %d of detector %s, %s.%s(%s)" % (
+                fams[0].sig_name, fams[1].sig_name, LAYOUT_TEXT[layout], "".join(who[x] for x in ev["order"]), k, who[i], fam.sig_name, method, ", ".join(held))
+            before = {a: h.fingerprint() for a, h in held.items()}
+            rng.seed_step(ctx.seed, SHARED, cfg["id"], i, k)
+            exc = None
+            try:
+                getattr(dets[i], method)(**{a: h.obj for a, h in held.items()}, **extra)
+            except Exception as e:  # noqa: BLE001 - compared with the solo twin
+                exc = e
+            for a, h in held.items():
+                after = h.fingerprint()
+                if after != before[a]:
+                    raise Violation(
+                        "argument-modified",
+                        "%s modified its argument %r (%s changed) during the call" % (where, a, describe_fp_diff(before[a][0], after[0]) or "the array the view was cut from"),
+                        expected="argument bit-for-bit as passed",
+                        observed=jsonable(_conv(h.obj)),
+                        sig="argument-modified:%s:%s:%s" % (fam.sig_name, method, type(h.obj).__name__),
+                    )
+            ctx.count("arguments_compared_before_after", len(held))
+            if (exc is None) != (texc is None) or (exc is not None and type(exc) is not type(texc)):
+                raise Violation(
+                    "exception-differs-from-solo-private-copy-run",
+                    "%s %s, whereas the same detector used alone on private copies %s" % (where, "raised %r" % exc if exc is not None else "was accepted", "raised %r" % texc if texc is not None else "was accepted"),
+                    expected=repr(texc),
+                    observed=repr(exc),
+                    sig="shared-container:%s" % fam.sig_name,
+                )
+            done[i] += 1
+            if exc is not None:
+                dead[i] = True
+                last[i] = None  # what a detector reports after a call it refused is not judged here
+                ctx.count("shared_agreed_exception:%s:%s" % (fam.name, type(exc).__name__))
+                states[i].append("raised " + type(exc).__name__)
+                continue
+            od = public(dets[i])
+            bad = diff_keys(tobs, od)
+            if bad:
+                raise Violation(
+                    "trace-differs-from-solo-private-copy-run",
+                    "%s: public observables %s differ from those of the same detector used alone, in a fresh process state, on private copies of the same data" % (where, bad),
+                    expected={x: tobs.get(x) for x in bad},
+                    observed={x: od.get(x) for x in bad},
+                    sig="shared-container:%s" % fam.sig_name,
+                )
+            ctx.count("shared_calls_compared_with_solo_twin")
+            ctx.count("shared_call:%s.%s" % (fam.name, method))
+            last[i] = tobs
+            states[i].append(tobs["drift_state"])
+            if tobs["drift_state"] == "drift":
+                ctx.mark("shared_drift_transitions")
+                ctx.count("shared_drift:%s" % fam.name)
+            if cfg["after"] == "junk":
+                for h in held.values():
+                    h.overwrite(k)
+                ctx.mark("shared_container_overwritten_with_junk_after_the_call")
+                od = public(dets[i])
+                bad = diff_keys(tobs, od)
+                if bad:
+                    raise Violation(
+                        "observables-follow-caller-overwrite",
+                        "%s: after the caller overwrote the shared container in place, public observables %s of the detector changed" % (where, bad),
+                        expected={x: tobs.get(x) for x in bad},
+                        observed={x: od.get(x) for x in bad},
+                        sig="shared-container:%s" % fam.sig_name,
+                    )
+            j = 1 - i
+            if last[j] is not None:
+                oj = public(dets[j])
+                bad = diff_keys(last[j], oj)
+                if bad:
+                    raise Violation(
+                        "other-detector-changed",
+                        "%s: public observables %s of detector %s (%s), which was not called, changed" % (where, bad, who[j], fams[j].sig_name),
+                        expected={x: last[j].get(x) for x in bad},
+                        observed={x: oj.get(x) for x in bad},
+                        sig="shared-container:%s" % fams[j].sig_name,
+                    )
+                ctx.count("shared_uncalled_detector_compared")
+        ctx.count("shared_layout:%s" % layout)
+        ctx.count("shared_pair:%s+%s" % (cfg["fams"][0], cfg["fams"][1]))
+        ctx.count("shared_same_class_pairs" if fams[0].sig_name == fams[1].sig_name else "shared_different_class_pairs")
+        ctx.count("shared_sched:%s" % cfg["sched"])
+        if cfg["fams"][0] == cfg["fams"][1] and json.dumps(cfg["params"][0], sort_keys=True, default=repr) != json.dumps(cfg["params"][1], sort_keys=True, default=repr):
+            ctx.count("shared_same_class_different_parameters")
+        if done[0] and done[1]:
+            ctx.mark("shared_runs_with_both_detectors_used")
+        return {"calls": done, "a": states[0], "b": states[1]}
+
+
+def _rot(ops, alphabet):
+    """the other detector's data: every symbol replaced by its successor in the alphabet (differs at every position)"""
+    keys = [json.dumps(x) for x in alphabet]
+    return [alphabet[(keys.index(json.dumps(e)) + 1) % len(alphabet)] for e in ops]
+
+
+def _stream_ops(name, ci, n):
+    fam = FAMILIES[name]
+    p = fam.configs(Q)[ci]
+    alph = fam.alphabet(p, _FreshRef())
+    pre = next((pl["prefix"] for pl in PLANS.get(name, []) if pl["ci"] == ci), [])
+    a = (list(pre) + [alph[q % len(alph)] for q in range(n)])[: max(n, 0)] if n else list(pre) + [alph[0], alph[-1]]
+    return a, _rot(a, alph)
+
+
+# detectors whose containers have the same argument name, shape and column names can be fed from one container
+SH_BATCH2 = ("HDDDM", "KdqTreeBatch", "NNDVI", "BatchEnsemble")  # BATCH_2D, 6 x 2
+SH_VEC = ("CDBD~vec", "HDDDM~vec", "NNDVI~vec", "KdqTreeBatch~vec")  # BATCH_1D as vectors, 6 rows
+SH_UNI = ("ADWIN", "CUSUM", "PageHinkley", "KdqTreeStreaming", "StreamingEnsemble")  # one number per call
+SH_ERR = ("DDM", "EDDM", "STEPD", "ADWINAccuracy", "LinearFourRates")  # y_true, y_pred per call
+SH_HEAVY = ("KdqTreeStreaming", "LinearFourRates", "PCACD", "MD3", "StreamingEnsemble")
+SH_LAYOUTS_2D = ("c", "f", "view", "df", "dfarr")  # no mixed-dtype frame: its column dtypes are chosen from the first data written
+SH_BATCH_OPS = ([R0, 1, 0], [R1, 0, 2])  # a's and b's operation lists: different data at every position
+SH_KDQ_NOREF_OPS = ([1, 0, 2], [0, 1, 0])  # KdqTreeBatch without set_reference: the first update is the reference
+SH_CI = {"CUSUM": 2, "DDM": 2}  # parameter set of the every-interleaving tasks (CUSUM #0 refuses every call after its first alarm, DDM #0 alarms at every call)
+SH_MD3_OPS = (["ref", "u_in", "u_in", "u_in"], ["ref2", "u_out", "u_in", "u_in"])
+
+
+def shared_configs(tier):
+    """(fams, parameter indices, operation lists, layouts, schedule kind, after)"""
+    quick = tier == Q
+    out = []
+
+    def add(fa, fb, cia, cib, ops, layouts, sched="all", after="refill"):
+        out.append(((fa, fb), (cia, cib), ops, tuple(layouts), sched, after))
+
+    # batch detectors, 2-D batches: every ordered pair of classes (same class included)
+    names = SH_BATCH2[:3]
+    for fa in names:
+        for fb in names:
+            add(fa, fb, 0, 0, SH_BATCH_OPS, ("c", "df") if quick and fa == fb else ("c",) if quick else SH_LAYOUTS_2D)
+            if fa == fb or not quick:
+                add(fa, fb, 0, 0, SH_BATCH_OPS, ("c",) if quick else ("c", "df", "dfarr"), after="junk")
+    # same class, DIFFERENT parameter sets (what a key made of the argument and a counter forgets)
+    for fa in names:
+        add(fa, fa, 0, 1, SH_BATCH_OPS, ("c",) if quick else ("c", "df"), sched="few" if quick else "all")
+        add(fa, fa, 1, 0, SH_BATCH_OPS, ("df",) if quick else ("c", "df"), sched="few" if quick else "all")
+    add("KdqTreeBatch", "KdqTreeBatch", 2, 2, SH_KDQ_NOREF_OPS, ("c",) if quick else ("c", "df"))
+    add("KdqTreeBatch", "NNDVI", 2, 1, (SH_KDQ_NOREF_OPS[0], SH_BATCH_OPS[1]), ("c",) if quick else ("c", "df"))
+    add("BatchEnsemble", "BatchEnsemble", 0, 1, SH_BATCH_OPS, ("c",) if quick else ("c", "df"), sched="few" if quick else "all")
+    add("BatchEnsemble", "NNDVI", 1, 0, SH_BATCH_OPS, ("df",) if quick else ("c", "df"), sched="few" if quick else "all")
+    add("NNDVI", "BatchEnsemble", 1, 0, SH_BATCH_OPS, ("c",) if quick else ("c", "df"), sched="few" if quick else "all")
+    # batch detectors, univariate batches handed over as vectors
+    for x, fa in enumerate(SH_VEC):
+        for y, fb in enumerate(SH_VEC):
+            if quick and fa != fb and (y - x) % len(SH_VEC) != 1:
+                continue
+            add(fa, fb, 0, 0, SH_BATCH_OPS, ("vec", "ser") if (fa == fb and not (quick and fa.startswith("Kdq"))) or not quick else ("vec",))
+    add("CDBD", "CDBD", 0, 0, SH_BATCH_OPS, ("c", "df"))
+    # streaming detectors: one observation per call
+    for group in (SH_UNI, SH_ERR):
+        for x, fa in enumerate(group):
+            for y, fb in enumerate(group):
+                if quick and fa != fb and (y - x) % len(group) != 1:
+                    continue
+                heavy = fa in SH_HEAVY or fb in SH_HEAVY
+                n = 3 if heavy and quick else 4
+                c0a, c0b = SH_CI.get(fa, 0), SH_CI.get(fb, 0)
+                ops = (_stream_ops(fa, c0a, n)[0], _stream_ops(fb, c0b, n)[1])
+                lay = [l for l in (("c", "df", "nd1") if fa == fb or not quick else ("c",)) if l in FAMILIES[fa].layouts and l in FAMILIES[fb].layouts]
+                add(fa, fb, c0a, c0b, ops, lay)
+                # the scripted histories that run into the alarms, a few schedules
+                cia = PLANS[fa][0]["ci"]
+                cib = PLANS[fb][0]["ci"]
+                add(fa, fb, cia, cib, (_stream_ops(fa, cia, 0)[0], _stream_ops(fb, cib, 0)[1]), lay[:2] if fa == fb else lay[:1], sched="few")
+                if fa == fb and len(PLANS[fa]) > 1 and PLANS[fa][1]["ci"] != cia:
+                    # same class, different parameter sets
+                    cib = PLANS[fa][1]["ci"]
+                    add(fa, fb, cia, cib, (_stream_ops(fa, cia, 0)[0], _stream_ops(fb, cib, 0)[1]), lay[:1], sched="few")
+                    add(fa, fb, cib, cia, (_stream_ops(fa, cib, 0)[0], _stream_ops(fb, cia, 0)[1]), lay[1:2], sched="few")
+    ops = (_stream_ops("PCACD", 1, 3 if quick else 4)[0], _stream_ops("PCACD", 1, 3 if quick else 4)[1])
+    add("PCACD", "PCACD", 1, 1, ops, ("c", "df", "nd1") if quick else ("c", "f", "view", "df", "dfarr", "nd1", "series"))
+    add("PCACD", "PCACD", 1, 1, (_stream_ops("PCACD", 1, 0)[0], _stream_ops("PCACD", 1, 0)[1]), ("c", "df"), sched="few")
+    add("MD3", "MD3", 0, 0, SH_MD3_OPS, ("df",) if quick else MD3Fam.layouts)
+    add("MD3", "MD3", 0, 1, (["ref", "u_in", "u_in", "u_in", "l_bad", "l_bad", "u_in"], ["ref2", "u_out", "u_in", "u_in", "l_ok", "l_ok", "u_out"]), ("df", "dfmix"), sched="few")
+    return out
+
+
+def shared_tasks(tier):
+    out = []
+    for n, (fs, cis, ops, layouts, sched, after) in enumerate(shared_configs(tier)):
+        params = [FAMILIES[f].configs(tier)[c] for f, c in zip(fs, cis)]
+        na, nb = len(ops[0]), len(ops[1])
+        runs = len(_interleavings(na, nb)) if sched == "all" else len(_few_schedules(na, nb))
+        for layout in layouts:
+            cid = "shared:%s#%d+%s#%d:%s:%s:%s:%d" % (fs[0], cis[0], fs[1], cis[1], layout, sched, after, n)
+            out.append(
+                {
+                    "system": SHARED,
+                    "cfg": {"id": cid, "fams": list(fs), "params": params, "ops": [list(ops[0]), list(ops[1])], "layout": layout, "sched": sched, "after": after},
+                    "prefix": [],
+                    "depth": 1,
+                    "label": "%s|%s#%d+%s#%d|%s|%s|%s" % (SHARED, fs[0], cis[0], fs[1], cis[1], layout, sched, after),
+                    "cost": max(COST.get(fs[0], 2), COST.get(fs[1], 2)) * runs * (na + nb) * (2 if layout.startswith("df") else 1),
+                    "validate_every": 29,
+                }
+            )
+    return out
+
+
+SYSTEMS[SHARED] = SharedSystem()
+
+
 def tasks(tier, seed):
     out = []
     for name, plans in PLANS.items():
@@ -1512,6 +1863,7 @@ def tasks(tier, seed):
                         "validate_every": 41,
                     }
                 )
+    out.extend(shared_tasks(tier))
     return out
 
 
@@ -1557,6 +1909,29 @@ REQUIRED = (
         "chain_completed_calls:3",
         "overwrite_after_injector_chain",
     ]
+    # round 5: two live detectors fed from one caller container (system Shared)
+    + [
+        "shared_runs_with_both_detectors_used",
+        "shared_container_refilled_and_handed_to_the_other_detector",
+        "shared_container_handed_over_at_equal_call_counts",
+        "shared_batch_container_handed_to_the_other_detector",
+        "shared_observation_container_handed_to_the_other_detector",
+        "shared_container_passed_to_the_same_detector_again",
+        "shared_container_overwritten_with_junk_after_the_call",
+        "shared_calls_compared_with_solo_twin",
+        "shared_uncalled_detector_compared",
+        "shared_same_class_pairs",
+        "shared_different_class_pairs",
+        "shared_drift_transitions",
+        "shared_sched:all",
+        "shared_sched:few",
+        "shared_same_class_different_parameters",
+    ]
+    + ["shared_layout:%s" % l for l in ("c", "df", "vec", "ser", "nd1", "dfmix")]
+    + ["shared_call:%s.set_reference" % n for n in SH_BATCH2 + SH_VEC + ("CDBD", "MD3")]
+    + ["shared_call:%s.update" % n for n in SH_BATCH2 + SH_VEC + SH_UNI + SH_ERR + ("CDBD", "PCACD", "MD3")]
+    + ["shared_call:MD3.give_oracle_label"]
+    + ["shared_drift:%s" % n for n in ("HDDDM", "CDBD", "CDBD~vec", "HDDDM~vec", "ADWIN", "CUSUM", "PageHinkley", "DDM", "EDDM", "STEPD", "ADWINAccuracy", "PCACD", "MD3")]
 )
 
 
@@ -1613,6 +1988,22 @@ def describe(tier):
                 "chains_per_layout": {n: sum(len(injector_chains(n, dk, tier, "c")) for dk in INJ_DATA) for n in INJECTORS},
             },
             "junk": "777 + 13*position + 3*arange(size), cast to the container's dtype(s)",
+            "shared_container_pairs": {
+                "system": "Shared: two live detectors a and b (constructed up front, in one process) and ONE caller container per (argument name, "
+                "shape, dtype, column names): before every call the caller writes that call's data into the container in place and hands the "
+                "same object to the detector whose turn it is; one execution = one order of the two operation lists; a detector's history ends "
+                "at a call it refuses (its solo twin must refuse it with the same exception type)",
+                "schedules": "all = every interleaving of the two operation lists (lists of 3+3: 20 orders, 4+4: 70); few = long scripted histories "
+                "(the plans' prefixes that run into alarms + 2 calls) under abab.., baba.., aabb.., bbaa.., a one call ahead, all of a then all of b, all of b then all of a",
+                "after": "refill = nothing but the next refill touches the container; junk = the caller also overwrites it with junk right after every call",
+                "batch_operation_lists": {"a": SH_BATCH_OPS[0], "b": SH_BATCH_OPS[1], "KdqTreeBatch without set_reference": SH_KDQ_NOREF_OPS},
+                "streaming_operation_lists": "a: the first plan's prefix of the parameter set continued by the alphabet in order, cut to 4 calls (3 for %s in quick); "
+                "b: a's list of its own class with every symbol replaced by its successor in the alphabet (different data at every position)" % "/".join(SH_HEAVY),
+                "tasks": ["%s#%d (a) + %s#%d (b): ops %s / %s, layouts %s, schedule %s, %s" % (fs[0], cis[0], fs[1], cis[1], json.dumps(ops[0]), json.dumps(ops[1]), "/".join(lay), sched, after)
+                          for fs, cis, ops, lay, sched, after in shared_configs(tier)],
+                "not_shared": "containers of different shape (menu entry 3 of the batch menus, 9 rows), detectors of different input width "
+                "(2-D batch detectors with univariate ones, error-rate detectors with data detectors), mixed-dtype frames except MD3's (their column dtypes follow the first data written)",
+            },
         },
         "explanation": "oracle (a): fingerprint of every argument (dtype, shape, strides, flags, bytes; frames: class, columns, "
         "index, per-column dtypes and bytes; for views also the array they were cut from) taken before the call equals the one "
@@ -1628,7 +2019,14 @@ def describe(tier):
         "container type, shares memory with none of them and is bit-for-bit what a brand-new injector object returns for a "
         "private copy of the same data under the same seed (that reference run is executed completely before the chain, and "
         "both raise the same exception type or neither raises); finally the caller overwrites everything it passed and then "
-        "each result in turn: no object not yet overwritten may change",
+        "each result in turn: no object not yet overwritten may change; "
+        "system Shared (two detectors alive together - same class and different classes, batch and streaming, ensembles, MD3 - fed "
+        "alternately from one caller container that is refilled in place between calls): every detector is judged by its SOLO twin, "
+        "a detector of the same class and parameters that ran the same operation list alone, before the shared run, in a process state "
+        "reset with mc.procstate.reset(), on private containers, with the same random draws (numpy's RNG is re-seeded from (VERIF_SEED, "
+        "task, detector a/b, index of the call in the detector's own list) before either call): after each call the argument is "
+        "bit-for-bit unchanged, the called detector's public observables equal the twin's bit for bit (same exception type or none), "
+        "and the detector that was not called reports what it reported before",
         "assumptions": [
             "a caller overwrite is an in-place write through the object that was passed (ndarray: arr[...] = junk; DataFrame: "
             "df.iloc[:, :] = junk, column-wise for mixed dtypes; frame wrapping an ndarray: write through the ndarray)",
